@@ -280,7 +280,13 @@ func (s *Supervisor) RunCheck(secondsOverride int) int {
 		for _, l := range o.Infra {
 			fmt.Println("  ", l)
 		}
-		return 2
+		if len(o.Failures) == 0 {
+			return 2
+		}
+		// Failures found by other runs are still confirmed by replay and minimised below: a confirmed
+		// failure is a violation whether or not another batch ran into the watchdog (a change that makes
+		// one kind of run very slow must not hide what the other runs found).
+		fmt.Printf("continuing with the %d failure classes the other runs found\n", len(o.Failures))
 	}
 
 	// 2b. Engine F phase: the same property against the instrumented build, if one was produced
